@@ -14,7 +14,8 @@ r = subprocess.run("git -C /repo apply %s/patch.diff" % d, shell=True); assert r
 try:
     for p in props:
         t0 = time.time()
-        r = subprocess.run([os.path.join(V, "check"), p, "--tier", tier], stdout=subprocess.PIPE, stderr=subprocess.STDOUT, text=True, cwd=V)
+        env = dict(os.environ); env["VERIF_EVIDENCE_DIR"] = os.path.join(V, "build", "seeded-evidence")   # never overwrite the unchanged-tree evidence
+        r = subprocess.run([os.path.join(V, "check"), p, "--tier", tier], stdout=subprocess.PIPE, stderr=subprocess.STDOUT, text=True, cwd=V, env=env)
         keys = [l.strip() for l in r.stdout.splitlines() if l.strip().startswith("key=")]
         viol = [l for l in r.stdout.splitlines() if l.startswith("VIOLATION")]
         meta.setdefault("checks", {})["%s/%s" % (p, tier)] = {"exit": r.returncode, "violations": len(viol), "keys": [k[:300] for k in keys[:6]], "wall_s": round(time.time() - t0, 1),
